@@ -170,6 +170,8 @@ def rule_iter(ctx):
             x = x.func.value
         if isinstance(x, ast.Subscript):
             x = x.value
+        elif isinstance(x, ast.Call) and isinstance(x.func, ast.Attribute) and x.func.attr == 'get' and x.args:
+            x = x.func.value          # d.get(k, ()) hands out the same inner container as d[k]
         return ctx.res.canon(x, f) in SHARED
     for f in ctx.repo.funcs.values():
         if f.unit.relpath != rel or f.cls != 'MemPool':
